@@ -81,7 +81,7 @@ package carreader
 //@ func ReadNodeInfoWithoutData
 //@   mode int
 //@   requires br != nil
-//@   modifies consumed(br)
+//@   modifies consumed(br), written(io.Discard)
 //@   ensures result2 != nil ==> result1 == 0
 //@   ensures old(consumed(br)) <= consumed(br)
 //@   ensures result2 == nil ==> 1 <= result1 && result1 <= 33554432 + 10
@@ -93,7 +93,7 @@ package carreader
 //@ func (*CarReader) NextInfo
 //@   mode int
 //@   requires cr.br != nil
-//@   modifies consumed(cr.br)
+//@   modifies consumed(cr.br), written(io.Discard)
 //@   ensures result2 != nil ==> result1 == 0
 //@   ensures old(consumed(cr.br)) <= consumed(cr.br)
 //@   ensures result2 == nil ==> 1 <= result1 && result1 <= 33554432 + 10
